@@ -326,6 +326,7 @@ func runDoc(r *vh.Run, dc docCase, configs []wconf) {
 	var refText string
 	var refConf string
 	failSent := false
+	caseSent := false
 	for ci, c := range configs {
 		ctx1, bindDiff, err := readInput(dc.doc, c.conf())
 		if err == nil && bindDiff != "" && ci == 0 {
@@ -428,17 +429,23 @@ func runDoc(r *vh.Run, dc docCase, configs []wconf) {
 		r.Count("config:" + c.name)
 		// ---- K
 		text := after.tv.text(nil) + "|dangling=" + vh.Ints(dang)
-		if !ok {
-			// the table of a configuration that already failed the oracle is no reference
-		} else if refConf == "" {
-			refConf, refText = c.name, text
+		// the model is compared with the first configuration whose EOL is not CR (the tables of CR
+		// configurations can be hit by the stream defect reported as eol-cr-stream-content-changed),
+		// whatever the oracle said; the tables of the configurations that passed the oracle must agree
+		if !caseSent && (c.eol != types.EolCR || ci == len(configs)-1) {
+			caseSent = true
 			if len(before.tv.nrs) <= dc.maxObjs {
 				r.Case("write", []string{before.tv.wire(), vh.Int(int64(before.root)), infoArg(before), vh.Bool(before.rootVer), "100"}, "ok:"+digest(text))
 			} else {
 				r.Count("doc:too-big-for-model")
 			}
-		} else if ok && text != refText {
-			r.OracleFail("config-dependent-output", input(c), fmt.Sprintf("table after %s differs from table after %s", c.name, refConf))
+		}
+		if ok {
+			if refConf == "" {
+				refConf, refText = c.name, text
+			} else if text != refText {
+				r.OracleFail("config-dependent-output", input(c), fmt.Sprintf("table after %s differs from table after %s", c.name, refConf))
+			}
 		}
 	}
 }
